@@ -490,7 +490,9 @@ func genTraceFacts(repo, out string) {
 	b.WriteString("\nnamespace TraceFacts\n\n")
 	if t.fail != "" {
 		// the schedule of Multiply is not a function of (nil?, one?) alone: recorded, and the C19 theorem will not build
-		fmt.Fprintf(&b, "/-- extraction failed: %s -/\ndef extractionFailure : String := %q\n\nend TraceFacts\n", t.fail, t.fail)
+		// (the names the driver refers to stay defined, so only the C19 theorems stop checking, not every build)
+		fmt.Fprintf(&b, "/-- extraction failed: %s -/\ndef extractionFailure : String := %q\n\n", t.fail, t.fail)
+		b.WriteString("def multiplyAlternatives : List (List String) := []\n\ndef multiplyGuards : List Nat := []\n\nend TraceFacts\n")
 		writeIfChanged(out+"/TraceFacts.lean", b.String())
 		return
 	}
